@@ -131,6 +131,13 @@ def templates(tier="quick"):
     v = Variant("v0", [two, imp, Stmt("top", ex=["o1", "o2", "g.c"], im=["g.h"])])
     T += _mk("several_outputs_with_discovered_deps", [v], tags=["deps-gcc", "depfile", "multi-output"], depth=d, js=(1, 2), max_fault_stmts=2, touch=True)
 
+    # T9c statements all of whose outputs are implicit (`build | out.bin: ...`), with discovered dependencies
+    for kind, kw in (("gcc", {"deps": "gcc"}), ("depfile", {"depfile": True})):
+        o = Stmt("out.bin", ex=["src"], hidden=["hdr"], **kw)
+        o.outs_all_implicit = True
+        T += _mk("only_implicit_outputs_%s" % kind, [Variant("v0", [o, Stmt("top", ex=["out.bin"])])], tags=["deps", "implicit-output"], depth=d,
+                 js=(1, 2), max_fault_stmts=1, touch=True)
+
     # T6c a localized compiler: the /showIncludes prefix is bound at file level (msvc_deps_prefix), as build generators write it
     o = Stmt("obj", ex=["src"], hidden=["inc.h", "gen.h"], oo=["gen.h"], deps="msvc")
     o.msvc_prefix = "Hinweis: Einlesen der Datei: "
